@@ -472,6 +472,14 @@ class Sut(object):
                 out.append(D(["C02"], "windup-differs", lru=p, got=back))
                 break
             self.stats["C02_lookups"] += 1
+            # the resolution walk is a further copy of the sibling search: it must land on the same entry
+            fl = getattr(trie, "follow_lru", None)
+            if fl is not None:
+                n2, _ = fl(p)
+                self.stats["C02_follow_lookups"] += 1
+                if n2 is None or n2.block != n.block:
+                    out.append(D(["C02", "C04"], "resolution-walk-lands-elsewhere", lru=p[-40:], block=n.block, got=None if n2 is None else n2.block))
+                    break
         sample = sorted(m.nodes)
         rng.shuffle(sample)
         for p in sample[:25]:
